@@ -64,7 +64,8 @@ pub const KINDS: &[&str] = &[
     "transducer-state", "being-allocated", "struct-field", "vector-set", "box-chain",
     "map-callback", "dynamic-wind", "apply-args", "frames-deep", "make-vector-fill",
     "continuation-escaped", "closure-in-container", "host-rooted", "frame-closure-temp",
-    "continuation-frame-capture", "thread-result",
+    "continuation-frame-capture", "thread-result", "channel-in-flight", "promise", "parameterize",
+    "rest-args", "stream", "hash-value", "hashset-member", "immutable-struct-field",
 ];
 
 /// One item: (kind, definitions to run first, expression, expected rendering).
@@ -117,6 +118,48 @@ pub fn gen_item(g: &mut Gen, kind: &str, uid: usize) -> (String, String, String)
         "thread-result" => (
             format!("(define th{uid} (spawn-native-thread (lambda () (list (box {a}) (mutable-vector {b} {c})))))\n(define (wait{uid}) (if (thread-finished? th{uid}) 0 (wait{uid})))"),
             format!("(begin (wait{uid}) {k1} (let ((r (thread-join! th{uid}))) {k2} (list (unbox (car r)) (mut-vector-ref (cadr r) 0) (mut-vector-ref (cadr r) 1))))"),
+            list_str(&[a, b, c]),
+        ),
+        // a value that has been sent and not received yet: the program reaches it
+        // through the receiving end it holds
+        "channel-in-flight" => (
+            format!("(define ch{uid} (channels/new))\n(channel/send (channels-sender ch{uid}) (list (box {a}) (mutable-vector {b} {c})))"),
+            format!("(begin {k1} (let ((r (channel/recv (channels-receiver ch{uid})))) {k2} (list (unbox (car r)) (mut-vector-ref (cadr r) 0) (mut-vector-ref (cadr r) 1))))"),
+            list_str(&[a, b, c]),
+        ),
+        "promise" => (
+            String::new(),
+            format!("(let ((p (delay (begin {k1} (list (box {a}) (mutable-vector {b})))))) (force p) {k2} (let ((r (force p))) {k3} (list (unbox (car r)) (mut-vector-ref (cadr r) 0))))"),
+            list_str(&[a, b]),
+        ),
+        "parameterize" => (
+            format!("(define pr{uid} (make-parameter (box {a})))"),
+            format!("(begin {k1} (let ((o (unbox (pr{uid})))) (parameterize ((pr{uid} (box {b}))) {k2} (list o (unbox (pr{uid})) (parameterize ((pr{uid} (mutable-vector {c}))) {k3} (mut-vector-ref (pr{uid}) 0))))))"),
+            list_str(&[a, b, c]),
+        ),
+        "rest-args" => (
+            format!("(define (rest{uid} x . xs) {k1} (cons (unbox x) (map unbox xs)))"),
+            format!("(begin {k2} (rest{uid} (box {a}) (box {b}) (begin {k3} (box {c}))))"),
+            list_str(&[a, b, c]),
+        ),
+        "stream" => (
+            format!("(define st{uid} (let ((q (mutable-vector {b}))) (stream-cons (box {a}) (lambda () (stream-cons q (lambda () empty-stream))))))"),
+            format!("(begin {k1} (let ((x (unbox (stream-car st{uid}))) (rest ((#%stream-cdr st{uid})))) {k2} (list x (mut-vector-ref (stream-car rest) 0))))"),
+            list_str(&[a, b]),
+        ),
+        "hash-value" => (
+            String::new(),
+            format!("(let* ((h (hash 'a (box {a}))) (h2 (hash-insert h 'b (mutable-vector {b} {c})))) {k1} (let ((h3 (hash-insert h2 'c (box 0)))) {k2} (list (unbox (hash-ref h3 'a)) (mut-vector-ref (hash-ref h2 'b) 0) (mut-vector-ref (hash-ref h3 'b) 1))))"),
+            list_str(&[a, b, c]),
+        ),
+        "hashset-member" => (
+            String::new(),
+            format!("(let ((s (hashset (box {a})))) {k1} (let ((s2 (hashset-insert s (box {b})))) {k2} (list (apply + (map unbox (hashset->list s))) (apply + (map unbox (hashset->list s2))))))"),
+            list_str(&[a, a + b]),
+        ),
+        "immutable-struct-field" => (
+            format!("(struct imm{uid} (a b))"),
+            format!("(let ((s (imm{uid} (box {a}) (vector (box {b}) (mutable-vector {c}))))) {k1} (list (unbox (imm{uid}-a s)) (unbox (vector-ref (imm{uid}-b s) 0)) (mut-vector-ref (vector-ref (imm{uid}-b s) 1) 0)))"),
             list_str(&[a, b, c]),
         ),
         "global" => (
@@ -263,7 +306,7 @@ fn gen_workload(rng: &mut Rng, thorough: bool) -> Value {
 /// Root classes with a recorded defect (known_findings.json): evaluated on
 /// their own and after everything else, so that they neither hide nor get
 /// mixed into other results.
-pub const ISOLATED: &[&str] = &["transducer-state", "thread-result"];
+pub const ISOLATED: &[&str] = &["transducer-state", "thread-result", "channel-in-flight"];
 pub const ISOLATED_JIT: &[&str] = &[];
 
 fn isolated(kind: &str, jit: bool) -> bool {
@@ -470,7 +513,7 @@ impl Scenario for C04 {
     }
 
     fn rule(&self) -> String {
-        "each evaluation = one forked run of a generated program of 2-7 items drawn from 23 root classes (pending argument, let local, closure capture, assigned captured variable, open/re-entered/escaped continuation, handler capture, global, thread-local slot, nested containers, transducer state, value being allocated, struct field, vector-set!, box chain, map callback, dynamic-wind, apply arguments, deep frames, make-vector fill, closure in container, host-rooted value) with allocator churn between store and read-back, under a per-run forced-full-collection rate in {0,1/64,1/8,1/2,1} and JIT on/off; non-trivial = at least one full collection ran; distinct = distinct (workload, event trace)".into()
+        "each evaluation = one forked run of a generated program of 2-7 items drawn from 34 root classes (pending argument, let local, closure capture, assigned captured variable, open/re-entered/escaped continuation, handler capture, global, thread-local slot, nested containers, transducer state, value being allocated, struct field, vector-set!, box chain, map callback, dynamic-wind, apply arguments, deep frames, make-vector fill, closure in container, host-rooted value, frame-closure temporaries, continuation-captured frames, unjoined thread result, value in flight in a channel, forced promise, parameterize binding, rest arguments, stream cells, hash-map value, hash-set member, immutable struct field) with allocator churn between store and read-back, under a per-run forced-full-collection rate in {0,1/64,1/8,1/2,1} and JIT on/off; non-trivial = at least one full collection ran; distinct = distinct (workload, event trace)".into()
     }
     fn assumptions(&self) -> Vec<String> {
         vec![
